@@ -7,475 +7,83 @@
 package main
 
 import (
-	"context"
-	"flag"
 	"fmt"
-	"log/slog"
-	"os"
-	"reflect"
-	"runtime"
-	"strings"
-	"sync"
-	"sync/atomic"
 	"time"
-	"unicode/utf8"
-	"unsafe"
 
-	"github.com/whoisnian/glb/logger"
-	"github.com/whoisnian/glb/zzverif/vtime"
-	"verif/engine/vcommon"
 	"verif/engine/vlog"
+	"verif/engine/vlogrun"
 	"verif/engine/voracle"
-	"verif/engine/vstate"
 )
 
-type sink struct{ chunks [][]byte }
-
-func (s *sink) Write(p []byte) (int, error) {
-	s.chunks = append(s.chunks, append([]byte(nil), p...))
-	return len(p), nil
-}
-
-var fake = time.Date(2023, 8, 16, 0, 35, 15, 208873091, time.FixedZone("", 8*3600))
-
-var levels = []slog.Level{logger.LevelDebug, logger.LevelInfo, logger.LevelWarn, logger.LevelError, logger.LevelFatal}
-var levelNames = []string{"DEBUG", "INFO", "WARN", "ERROR", "FATAL"}
-
-type rec struct {
-	level  int
-	source bool
-	entry  int // 0 Log(args), 1 LogAttrs, 2 Logf
-	msg    string
-	chain  []vlog.ChainOp
-	call   []*vlog.Node
-}
-
-func (r *rec) String() string {
-	return fmt.Sprintf("level=%s source=%v entry=%d msg=%q chain=%s call=%s", levelNames[r.level], r.source, r.entry, r.msg, vlog.ChainString(r.chain), vlog.NodesString(r.call))
-}
-
-type worker struct {
-	sinks   [2]*sink
-	roots   [2]*logger.Logger
-	derived map[string]*logger.Logger
-}
-
-func newWorker() *worker {
-	w := &worker{derived: map[string]*logger.Logger{}}
-	for i := 0; i < 2; i++ {
-		w.sinks[i] = &sink{}
-		w.roots[i] = logger.New(logger.NewJsonHandler(w.sinks[i], logger.NewOptions(logger.LevelDebug, false, i == 1)))
+func judge(r *vlogrun.Rec, file string, line int, chunks [][]byte) string {
+	if len(chunks) != 1 {
+		return fmt.Sprintf("%d Write calls for one record", len(chunks))
 	}
-	return w
-}
-
-// emit performs the logging call; each entry point has its own call site whose line is
-// captured on the same source line.
-func emit(l *logger.Logger, r *rec) (file string, line int) {
-	ctx := context.Background()
-	lv := levels[r.level]
-	switch r.entry {
-	case 0:
-		_, file, line, _ = runtime.Caller(0); l.Log(ctx, lv, r.msg, vlog.Args(r.call)...)
-	case 1:
-		_, file, line, _ = runtime.Caller(0); l.LogAttrs(ctx, lv, r.msg, vlog.Attrs(r.call)...)
-	default:
-		_, file, line, _ = runtime.Caller(0); l.Logf(ctx, lv, "%s", r.msg)
-	}
-	return
-}
-
-func lastTwo(file string) string {
-	parts := strings.Split(file, "/")
-	if len(parts) >= 2 {
-		return strings.Join(parts[len(parts)-2:], "/")
-	}
-	return file
-}
-
-// run logs the record and judges the bytes that reached the writer.
-func (w *worker) run(r *rec) string {
-	si := 0
-	if r.source {
-		si = 1
-	}
-	sk := w.sinks[si]
-	sk.chunks = sk.chunks[:0]
-	l := vlog.Derive(w.roots[si], r.chain)
-	file, line := emit(l, r)
-	if len(sk.chunks) != 1 {
-		return fmt.Sprintf("%d Write calls for one record", len(sk.chunks))
-	}
-	out := sk.chunks[0]
+	out := chunks[0]
 	if len(out) == 0 || out[len(out)-1] != '\n' {
-		return fmt.Sprintf("line does not end in a newline: %q", clip(out))
+		return fmt.Sprintf("line does not end in a newline: %q", vlogrun.Clip(out))
 	}
 	body := out[:len(out)-1]
 	for _, b := range body {
 		if b == '\n' {
-			return fmt.Sprintf("line break inside the record: %q", clip(out))
+			return fmt.Sprintf("line break inside the record: %q", vlogrun.Clip(out))
 		}
 	}
 	v, err := voracle.ParseJSONLine(body)
 	if err != nil {
-		return fmt.Sprintf("not a single JSON value (%v): %q", err, clip(out))
+		return fmt.Sprintf("not a single JSON value (%v): %q", err, vlogrun.Clip(out))
 	}
 	if v.Kind != 'o' {
-		return fmt.Sprintf("not a JSON object: %q", clip(out))
+		return fmt.Sprintf("not a JSON object: %q", vlogrun.Clip(out))
 	}
 	m := v.Members
 	need := 3
-	if r.source {
+	if r.Source {
 		need = 4
 	}
 	if len(m) < need {
-		return fmt.Sprintf("only %d members: %q", len(m), clip(out))
+		return fmt.Sprintf("only %d members: %q", len(m), vlogrun.Clip(out))
 	}
 	if m[0].Key != "time" || m[0].Val.Kind != 's' {
-		return fmt.Sprintf("first member is not time: %q", clip(out))
+		return fmt.Sprintf("first member is not time: %q", vlogrun.Clip(out))
 	}
-	if t, err := time.Parse(time.RFC3339Nano, m[0].Val.Str); err != nil || !t.Equal(fake) {
-		return fmt.Sprintf("time %q is not the record's time %v", m[0].Val.Str, fake)
+	if t, err := time.Parse(time.RFC3339Nano, m[0].Val.Str); err != nil || !t.Equal(vlogrun.Fake) {
+		return fmt.Sprintf("time %q is not the record's time %v", m[0].Val.Str, vlogrun.Fake)
 	}
-	if m[1].Key != "level" || m[1].Val.Kind != 's' || m[1].Val.Str != levelNames[r.level] {
-		return fmt.Sprintf("level member is %q:%s, want %s", m[1].Key, m[1].Val, levelNames[r.level])
+	if m[1].Key != "level" || m[1].Val.Kind != 's' || m[1].Val.Str != vlogrun.LevelNames[r.Level] {
+		return fmt.Sprintf("level member is %q:%s, want %s", m[1].Key, m[1].Val, vlogrun.LevelNames[r.Level])
 	}
 	i := 2
-	if r.source {
+	if r.Source {
 		s := m[2]
 		if s.Key != "source" || s.Val.Kind != 'o' || len(s.Val.Members) != 2 || s.Val.Members[0].Key != "file" || s.Val.Members[1].Key != "line" {
 			return fmt.Sprintf("malformed source member: %s", s.Val)
 		}
-		if s.Val.Members[0].Val.Str != lastTwo(file) || string(s.Val.Members[1].Val.Num) != fmt.Sprint(line) {
-			return fmt.Sprintf("source is %s, the call site is %s:%d", s.Val, lastTwo(file), line)
+		if s.Val.Members[0].Val.Str != vlogrun.LastTwo(file) || string(s.Val.Members[1].Val.Num) != fmt.Sprint(line) {
+			return fmt.Sprintf("source is %s, the call site is %s:%d", s.Val, vlogrun.LastTwo(file), line)
 		}
 		i = 3
 	}
-	if m[i].Key != "msg" || m[i].Val.Kind != 's' || m[i].Val.Str != vlog.Sanitize(r.msg) {
-		return fmt.Sprintf("msg member is %q:%s, want %q", m[i].Key, m[i].Val, vlog.Sanitize(r.msg))
+	if m[i].Key != "msg" || m[i].Val.Kind != 's' || m[i].Val.Str != vlog.Sanitize(r.Msg) {
+		return fmt.Sprintf("msg member is %q:%s, want %q", m[i].Key, m[i].Val, vlog.Sanitize(r.Msg))
 	}
-	call := r.call
-	if r.entry == 2 {
+	call := r.Call
+	if r.Entry == 2 {
 		call = nil
 	}
-	if why := vlog.MatchJSON(vlog.Expected(r.chain, call), m[i+1:]); why != "" {
-		return fmt.Sprintf("attributes do not decode to what was logged: %s\n line: %q", why, clip(out))
+	if why := vlog.MatchJSON(vlog.Expected(r.Chain, call), m[i+1:]); why != "" {
+		return fmt.Sprintf("attributes do not decode to what was logged: %s\n line: %q", why, vlogrun.Clip(out))
 	}
 	return ""
 }
 
-func clip(b []byte) string {
-	if len(b) > 400 {
-		return string(b[:250]) + "…" + string(b[len(b)-100:])
-	}
-	return string(b)
-}
-
-// ---------------------------------------------------------------- enumeration
-
-type gen func(yield func(*rec) bool)
-
-// strings: every 1-/2-byte string and every scalar, in the three positions
-func genStrings(scalarsEverywhere bool) gen {
-	return func(yield func(*rec) bool) {
-		n := 0
-		place := func(s string, positions int) bool {
-			for pos := 0; pos < positions; pos++ {
-				n++
-				r := &rec{level: n % 5, source: n%7 == 0, entry: n % 2}
-				switch pos {
-				case 0:
-					r.msg = s
-					if n%3 == 0 {
-						r.entry = 2
-					}
-				case 1:
-					r.msg = "m"
-					r.call = []*vlog.Node{{Kind: vlog.NLeaf, Key: s, Leaf: vlog.LeafByName("str")}}
-				case 2:
-					r.msg = "m"
-					r.call = []*vlog.Node{{Kind: vlog.NLeaf, Key: "k", Leaf: vlog.StrLeaf(s)}}
-				}
-				if !yield(r) {
-					return false
-				}
-			}
-			return true
-		}
-		for a := 0; a < 256; a++ {
-			if !place(string([]byte{byte(a)}), 3) {
-				return
-			}
-		}
-		for a := 0; a < 256; a++ {
-			for b := 0; b < 256; b++ {
-				if !place(string([]byte{byte(a), byte(b)}), 3) {
-					return
-				}
-			}
-		}
-		pos := 1
-		if scalarsEverywhere {
-			pos = 3
-		}
-		for c := rune(0); c <= utf8.MaxRune; c++ {
-			if c >= 0xD800 && c <= 0xDFFF {
-				continue
-			}
-			if !place(string(c), pos) {
-				return
-			}
-		}
-	}
-}
-
-// kinds: every value kind at every position class
-func genKinds() gen {
-	return func(yield func(*rec) bool) {
-		n := 0
-		for _, lf := range vlog.Leaves {
-			leaf := func(k string) *vlog.Node { return &vlog.Node{Kind: vlog.NLeaf, Key: k, Leaf: lf} }
-			str := func(k string) *vlog.Node { return &vlog.Node{Kind: vlog.NLeaf, Key: k, Leaf: vlog.LeafByName("str")} }
-			shapes := []struct {
-				chain []vlog.ChainOp
-				call  []*vlog.Node
-			}{
-				{nil, []*vlog.Node{leaf("v")}},
-				{nil, []*vlog.Node{str("a"), leaf("v"), str("z")}},
-				{nil, []*vlog.Node{{Kind: vlog.NGroup, Key: "g", Kids: []*vlog.Node{leaf("v"), str("z")}}}},
-				{nil, []*vlog.Node{{Kind: vlog.NGroup, Key: "", Kids: []*vlog.Node{leaf("v")}}, str("z")}},
-				{nil, []*vlog.Node{{Kind: vlog.NLVGroup, Key: "lg", Kids: []*vlog.Node{str("a"), leaf("v")}}}},
-				{[]vlog.ChainOp{{Attrs: []*vlog.Node{leaf("v")}}}, []*vlog.Node{str("z")}},
-				{[]vlog.ChainOp{{Group: "grp"}, {Attrs: []*vlog.Node{leaf("v")}}}, nil},
-				{[]vlog.ChainOp{{Attrs: []*vlog.Node{str("a")}}, {Group: "grp"}}, []*vlog.Node{leaf("v")}},
-				{[]vlog.ChainOp{{Group: "g1"}, {Group: "g2"}}, []*vlog.Node{{Kind: vlog.NGroup, Key: "in", Kids: []*vlog.Node{leaf("v")}}}},
-			}
-			for _, sh := range shapes {
-				for lv := 0; lv < 5; lv++ {
-					for _, src := range []bool{false, true} {
-						for entry := 0; entry < 2; entry++ {
-							n++
-							if !yield(&rec{level: lv, source: src, entry: entry, msg: "kinds", chain: sh.chain, call: sh.call}) {
-								return
-							}
-						}
-					}
-				}
-			}
-		}
-	}
-}
-
-var structLeaves = []*vlog.Leaf{vlog.LeafByName("str"), vlog.LeafByName("int64-min"), vlog.LeafByName("float-nan"), vlog.LeafByName("nil")}
-
-// structure: every (chain, call) with a total node budget
-func genStructure(budget, maxChain int) gen {
-	return func(yield func(*rec) bool) {
-		n := 0
-		var chains func(prefix []vlog.ChainOp, left, ops int) bool
-		chains = func(prefix []vlog.ChainOp, left, ops int) bool {
-			// emit every call-site forest that fits the remaining budget
-			for _, call := range vlog.Forests(left, structLeaves) {
-				if len(call) > 2 {
-					continue
-				}
-				n++
-				ctr := 0
-				var ch []vlog.ChainOp
-				for _, c := range prefix {
-					if c.Group != "" {
-						ch = append(ch, c)
-					} else {
-						ch = append(ch, vlog.ChainOp{Attrs: vlog.Rekey(c.Attrs, &ctr)})
-					}
-				}
-				r := &rec{level: n % 5, source: n%3 == 0, entry: n % 2, msg: "structure", chain: ch, call: vlog.Rekey(call, &ctr)}
-				if len(call) == 0 && n%4 == 0 {
-					r.entry = 2
-				}
-				if !yield(r) {
-					return false
-				}
-			}
-			if ops == 0 {
-				return true
-			}
-			for _, g := range []string{"g", "h"} {
-				if left >= 1 && !chains(append(append([]vlog.ChainOp{}, prefix...), vlog.ChainOp{Group: g}), left-1, ops-1) {
-					return false
-				}
-			}
-			for used := 1; used <= left; used++ {
-				for _, f := range vlog.Forests(used, structLeaves) {
-					sz := 0
-					for _, t := range f {
-						sz += t.Size()
-					}
-					if sz != used || len(f) == 0 || len(f) > 2 {
-						continue
-					}
-					if !chains(append(append([]vlog.ChainOp{}, prefix...), vlog.ChainOp{Attrs: f}), left-used, ops-1) {
-						return false
-					}
-				}
-			}
-			return true
-		}
-		chains(nil, budget, maxChain)
-	}
-}
-
-// ---------------------------------------------------------------- driver
-
-type passResult struct {
-	name     string
-	evals    int64
-	fail     string
-	failRec  string
-	states   map[string]bool
-	derivs   int64
-	nontriv  int64
-}
-
-func handlerOf(l *logger.Logger) any {
-	v := reflect.ValueOf(l).Elem().Field(0)
-	return reflect.NewAt(v.Type(), unsafe.Pointer(v.UnsafeAddr())).Elem().Interface()
-}
-
-func runPass(name string, g gen, trackStates bool) *passResult {
-	res := &passResult{name: name, states: map[string]bool{}}
-	nw := vcommon.NProc()
-	ch := make(chan []*rec, nw*2)
-	var wg sync.WaitGroup
-	var mu sync.Mutex
-	var stop atomic.Bool
-	for i := 0; i < nw; i++ {
-		wg.Add(1)
-		go func() {
-			defer wg.Done()
-			w := newWorker()
-			local := map[string]bool{}
-			for batch := range ch {
-				for _, r := range batch {
-					if stop.Load() {
-						continue
-					}
-					why := func() (why string) {
-						defer func() {
-							if p := recover(); p != nil {
-								why = fmt.Sprintf("panic: %v", p)
-							}
-						}()
-						return w.run(r)
-					}()
-					atomic.AddInt64(&res.evals, 1)
-					if len(r.chain) > 0 {
-						atomic.AddInt64(&res.derivs, int64(len(r.chain)))
-					}
-					if trackStates {
-						si := 0
-						if r.source {
-							si = 1
-						}
-						w.sinks[si].chunks = nil
-						local[vstate.Dump(handlerOf(vlog.Derive(w.roots[si], r.chain)))] = true
-					}
-					if why != "" {
-						mu.Lock()
-						if res.fail == "" || len(r.String()) < len(res.failRec) {
-							res.fail, res.failRec = why, r.String()
-						}
-						mu.Unlock()
-						stop.Store(true)
-					}
-				}
-			}
-			mu.Lock()
-			for k := range local {
-				res.states[k] = true
-			}
-			mu.Unlock()
-		}()
-	}
-	var batch []*rec
-	g(func(r *rec) bool {
-		batch = append(batch, r)
-		if len(batch) == 512 {
-			ch <- batch
-			batch = nil
-		}
-		return !stop.Load() && time.Now().Before(deadline)
-	})
-	if len(batch) > 0 {
-		ch <- batch
-	}
-	close(ch)
-	wg.Wait()
-	return res
-}
-
-var deadline time.Time
 
 func main() {
-	flag.Parse()
-	deadline = vcommon.Deadline()
-	vtime.SetFake(&fake)
-	budget, maxChain := 4, 2
-	if vcommon.Thorough() {
-		budget, maxChain = 5, 3
-	}
-	passes := []*passResult{
-		runPass("strings", genStrings(vcommon.Thorough()), false),
-		runPass("value-kinds", genKinds(), true),
-		runPass(fmt.Sprintf("structure(budget %d nodes, chains <= %d)", budget, maxChain), genStructure(budget, maxChain), true),
-	}
-	var viols []vcommon.Violation
-	var evals int64
-	states := map[string]bool{}
-	var derivs int64
-	var per []map[string]any
-	complete := time.Now().Before(deadline)
-	for _, p := range passes {
-		fmt.Printf("%-45s records=%-9d handler-states=%d\n", p.name, p.evals, len(p.states))
-		evals += p.evals
-		derivs += p.derivs
-		for k := range p.states {
-			states[k] = true
-		}
-		per = append(per, map[string]any{"pass": p.name, "records": p.evals, "distinct_handler_states": len(p.states)})
-		if p.fail != "" {
-			viols = append(viols, vcommon.Violation{Scenario: p.name, Fingerprint: strings.SplitN(p.name, "(", 2)[0] + "|" + shape(p.failRec),
-				Message: "C01: " + p.fail + "\n record: " + p.failRec, Witness: map[string]any{"record": p.failRec}})
-		}
-	}
-	code, n := vcommon.Report("C01", viols)
-	vcommon.WriteEvidence(&vcommon.Evidence{PropertyID: "C01", Level: "model_checking", Violations: n,
-		Coverage: map[string]any{
-			"states": len(states) + 1, "transitions": int(derivs) + 1, "traces_validated_against_impl": int(evals),
-			"evaluations": int(evals), "distinct_nontrivial": len(states) + 1,
-			"rule":       "every record is logged through the real Logger/JsonHandler and its bytes are parsed by an ordered JSON reader; states = distinct handler states (preformatted bytes, open groups, separator flag) reached by With/WithGroup chains; transitions = derivation steps executed; evaluations = records judged",
-			"exhaustive": complete, "passes": per,
-			"samples": []any{"msg=\"\\xff\\x22\" (2-byte string: invalid byte + quote) as message, key and value",
-				"chain=With[\"k1\":str].WithGroup(\"g\") call=[LV(\"\"){} \"k2\":nil] level=WARN source=true entry=LogAttrs",
-				passes[2].name},
-		},
-		Assumptions: []string{"colour off; the five valid levels; values whose own Error()/MarshalJSON() panics are outside the statement",
+	vlogrun.Main("C01", 2, judge, vlogrun.StandardPasses(),
+		"every record is logged through the real Logger/JsonHandler and its bytes are parsed by an ordered JSON reader; states = distinct handler states (preformatted bytes, open groups, separator flag) reached by With/WithGroup chains; transitions = derivation steps executed; evaluations = records judged",
+		[]any{"msg=\"\\xff\\x22\" (2-byte string: invalid byte + quote) as message, key and value",
+			"chain=With[\"k1\":str].WithGroup(\"g\") call=[LV(\"\"){} \"k2\":nil] level=WARN source=true entry=LogAttrs"},
+		[]string{"colour off; the five valid levels; values whose own Error()/MarshalJSON() panics are outside the statement",
 			"for maps, structs and Marshalers the reference rendering is encoding/json itself; every other kind has an independent expectation",
-			"a keyed group that ends up empty may be rendered as {} or omitted (the statement does not choose)"}})
-	os.Exit(code)
-}
-
-func firstLine(s string) string {
-	if i := strings.IndexByte(s, '\n'); i >= 0 {
-		return s[:i]
-	}
-	return s
-}
-
-// shape abstracts a record description to its structure (for a stable fingerprint)
-func shape(s string) string {
-	if i := strings.Index(s, "chain="); i >= 0 {
-		return s[i:]
-	}
-	return s
+			"a keyed group that ends up empty may be rendered as {} or omitted (the statement does not choose)"})
 }
